@@ -152,8 +152,16 @@ def _shapes(P, R):
     # propagate: recursion guarded by changed && !valid, new premise = this node's handle
     pi = P.one(PG + "::propagate_invalidation")
     rec = [c for c in pi.calls() if c.resolved == pi.name and c.bb in pi.normal_blocks()]
-    if not rec:
+    rm_in_loop = [c for c in pi.calls() if c.resolved == PN + "::remove_justifications_with_premise" and any(c.bb in lp["body"] for lp in pi.loops())]
+    if not rec and rm_in_loop:
+        # an explicit work list instead of recursion: the rule below reads the recursive form only
+        R.undecide("b", "propagate:iterative", "propagate_invalidation withdraws premises inside a loop and does not recurse (explicit work-list form); this rule reads the recursive form only", pi, rm_in_loop[0].line)
+        rec = None
+    elif not rec:
         R.violate("b", "propagate:not-transitive", "propagate_invalidation does not recurse: invalidation is not transitive", pi)
+    if rec is None:
+        _tail_shapes(P, R)
+        return
     for c in rec:
         gs = [A.norm_bool(g["cond"], g["polarity"]) for g in A.guards_of(pi, c.bb) if isinstance(g["polarity"], bool)]
         became_invalid = any(a.endswith(".valid") and v is False for a, v in gs)
@@ -187,6 +195,10 @@ def _shapes(P, R):
         R.hold("b", "the dependent first loses the justifications resting on the lost premise (unconditionally, whenever its node exists)", fn=pi)
     else:
         R.violate("b", "propagate:remove", "propagate_invalidation does not remove the justifications resting on the lost premise before deciding to recurse", pi)
+    _tail_shapes(P, R)
+
+
+def _tail_shapes(P, R):
     # add_justification re-validates; lookup filters on valid
     aj = P.one(PN + "::add_justification")
     st = [(bb, j, s) for (bb, j, s) in A.stores_to_field(aj, "valid", PN) if j >= 0]
